@@ -268,6 +268,8 @@ fn inputs_for(op: &Op, tier: Tier, seed: u64) -> Vec<Vec<V>> {
 
 fn main() {
     let mut cx = Ctx::from_args("C04", Level::FaultEnumeration);
+    // thorough: the pair sweep, the map gadget and the registry sweep need about 50 minutes
+    cx.thorough_budget(3300);
     cx.worker_rayon_threads = Some(1);
     cx.set_rule(
         "operation registry (arithmetic, linear combinations 1..7 terms, inversion/division, zero/equality \
@@ -423,6 +425,9 @@ fn main() {
         for (ci, chunk) in pairs.chunks(12).enumerate() {
             pcases.push((format!("{key}#{ci}"), (c.clone(), chunk.to_vec())));
         }
+    }
+    if tier.is_thorough() {
+        cx.next_group_share(900.0);
     }
     cx.run_cases("pairs", &pcases, |(c, pairs)| {
         let mut out = CaseOut::batch();
